@@ -1,5 +1,5 @@
 """Adapters over the public entry points of the real code in /repo (called in-process)."""
-import os, sys, tempfile, shutil, logging
+import copy, os, sys, tempfile, shutil, logging
 
 REPO = os.environ.get("JASM_REPO", "/repo")
 sys.path.insert(0, os.path.join(REPO, "src"))
@@ -40,12 +40,16 @@ def dump_yaml(doc):
 LAST_ERROR = [""]
 
 
+class Enough(Exception):
+    """raised to end the exploration early: enough failing inputs are in hand, or the run's time/memory budget is used up"""
+
+
 def guarded(fn):
     """('ok', value) or ('err', ExceptionClassName); the message of the last error is kept in LAST_ERROR."""
     try:
         return ("ok", fn())
     except BaseException as exc:  # noqa: BLE001 - SystemExit etc. included on purpose
-        if isinstance(exc, (KeyboardInterrupt, MemoryError)):
+        if isinstance(exc, (KeyboardInterrupt, MemoryError, Enough)):
             raise
         LAST_ERROR[0] = str(exc)
         return ("err", type(exc).__name__)
@@ -55,12 +59,71 @@ def compile_rule(scratch, doc, macro_docs=()):
     """Regex text produced by Yaml2Regex for a rule document (and extra macro files)."""
     path = scratch.write(dump_yaml(doc), ".yaml")
     mpaths = [scratch.write(dump_yaml(m), ".macros.yaml") for m in macro_docs]
+    if HISTORY["every"]:
+        HISTORY["count"] += 1
+        if HISTORY["count"] % HISTORY["every"] == 0:
+            _prelude(scratch)
     return guarded(lambda: Yaml2Regex(path, macros_from_terminal=mpaths or None).produce_regex())
 
 
 RET = {"bool": MatchingReturnMode.bool, "list": MatchingReturnMode.matched_addrs_list,
        "stream": MatchingReturnMode.all_instructions_string}
 MODE = {"first": MatchingSearchMode.first_find, "all": MatchingSearchMode.all_finds}
+
+
+# ---------------------------------------------------------------------------------------- history and repetition
+# Every property quantifies over operations performed in a process that may have done other work before (C14 says the
+# result cannot depend on it).  With HISTORY["every"] = n, every n-th measured operation is preceded by one operation of
+# a fixed pool that writes every piece of process state the code has (both full-match flags, a catch-all address range,
+# sections, captures, any-order groups, macros, an operation that fails half-way through load_config), and every n-th
+# measured operation is performed twice on the same MasterOfPuppets object: the two results must be equal.
+HISTORY = {"every": 0, "count": 0, "preludes": 0, "repeats": 0, "repeat_mismatches": []}
+
+_PRE_LISTING = """
+a.out:     file format elf64-x86-64
+
+Disassembly of section .text:
+
+0000000000401000 <f>:
+  401000:\t55                   \tpush   %rbp
+  401001:\t5d                   \tpop    %rbp
+  401002:\te8 09 00 00 00       \tcall   401010 <g>
+  401007:\t48 89 c3             \tmov    %rax,(%rax)
+  40100a:\t90                   \tnop
+  40100b:\teb 03                \tjmp    401010 <g>
+  40100d:\tc3                   \tret
+"""
+_PRE_OPS = [
+    ({"config": {"mnemonics-full-match": True, "operands-full-match": True, "style": "att",
+                 "valid_addr_range": {"min": "0", "max": "ffffffffffffffff"}, "sections": [".init", ".fini"]},
+      "macros": [{"name": "@pre", "pattern": ["nop"]}],
+      "pattern": [{"$and_any_order": ["push", "pop"]}, "&pre", {"mov": ["&r", {"$deref": {"main_reg": "&r"}}]}, "@pre"]},
+     "all", True, "list"),
+    ({"config": {"mnemonics-full-match": False, "operands-full-match": True,
+                 "valid_addr_range": {"min": "0x401010", "max": "0x401010"}},
+      "pattern": [{"call": ["valid_addr"]}, {"$and_any_order": ["mov", "nop"]}, {"$or": ["jmp", "ret"], "times": {"min": 1, "max": 2}}]},
+     "first", False, "bool"),
+    ({"config": {"mnemonics-full-match": True, "operands-full-match": "yes", "valid_addr_range": {"min": "1", "max": "2"}},
+      "pattern": ["nop"]}, "first", False, "bool"),
+    ({"config": {"mnemonics-full-match": True, "valid_addr_range": {"min": "zz", "max": "2"}, "sections": [".plt"]},
+      "pattern": ["nop"]}, "all", True, "list"),
+]
+
+
+def _prelude(scratch):
+    k = HISTORY["preludes"] % len(_PRE_OPS)
+    HISTORY["preludes"] += 1
+    doc, mode, ao, ret = _PRE_OPS[k]
+    path = scratch.write(dump_yaml(doc), ".pre.yaml")
+    inp = scratch.write(_PRE_LISTING, ".pre.s")
+    try:
+        m = MasterOfPuppets(MatchConfig(pattern_pathstr=path, input_file=inp, input_file_type=InputFileType.assembly,
+                                        return_only_address=ao, return_mode=RET[ret], matching_mode=MODE[mode]))
+        m.perform_matching()
+        m.perform_matching()
+    except BaseException as exc:  # noqa: BLE001
+        if isinstance(exc, (KeyboardInterrupt, MemoryError, Enough)):
+            raise
 
 
 def run_op(scratch, doc, text, mode="first", addr_only=False, ret="bool", macro_docs=(), binary_path=None,
@@ -72,13 +135,47 @@ def run_op(scratch, doc, text, mode="first", addr_only=False, ret="bool", macro_
         inp, kind = binary_path, InputFileType.binary
     else:
         inp, kind = input_path or scratch.write(text, ".s"), InputFileType.assembly
+    repeat = False
+    if HISTORY["every"]:
+        HISTORY["count"] += 1
+        if HISTORY["count"] % HISTORY["every"] == 0:
+            _prelude(scratch)
+        repeat = HISTORY["count"] % HISTORY["every"] == 1 and binary_path is None
 
     def go():
         cfg = MatchConfig(pattern_pathstr=path, input_file=inp, input_file_type=kind,
                           return_only_address=addr_only, return_mode=RET[ret], matching_mode=MODE[mode],
                           macros=mpaths or None)
-        return MasterOfPuppets(cfg).perform_matching()
+        m = MasterOfPuppets(cfg)
+        r1 = m.perform_matching()
+        if repeat:
+            r1 = copy.deepcopy(r1)
+            HISTORY["repeats"] += 1
+            r2 = m.perform_matching()
+            if r2 != r1 and len(HISTORY["repeat_mismatches"]) < 20:
+                HISTORY["repeat_mismatches"].append({"rule": doc, "listing": text if text is not None else inp,
+                                                     "mode": mode, "address_only": addr_only, "return": ret,
+                                                     "first_call": r1, "second_call_on_the_same_object": r2})
+        return r1
     return guarded(go)
+
+
+def run_ops_batch(scratch, doc, text, combos):
+    """The same rule and input asked in several ways: ALL MasterOfPuppets objects are constructed first (same rule file,
+    so the configuration singleton is written with the same values each time), then each is run.  combos: list of
+    (ret, mode, addr_only); returns {"ret/mode/ao": outcome}."""
+    path = scratch.write(dump_yaml(doc), ".yaml")
+    inp = scratch.write(text, ".s")
+    objs = []
+    for ret, mode, ao in combos:
+        objs.append(guarded(lambda: MasterOfPuppets(MatchConfig(
+            pattern_pathstr=path, input_file=inp, input_file_type=InputFileType.assembly, return_only_address=ao,
+            return_mode=RET[ret], matching_mode=MODE[mode]))))
+    out = {}
+    for (ret, mode, ao), o in zip(combos, objs):
+        key = "%s/%s/%d" % (ret, mode, int(ao))
+        out[key] = o if o[0] != "ok" else guarded(lambda: copy.deepcopy(o[1].perform_matching()))
+    return out
 
 
 def expand_macros(macros, tree):
